@@ -33,7 +33,9 @@ P = {
          "job, locations name the holding buffer, flags agree with stores - preserved by EVERY applied transition with no side "
          "condition, hence in every reachable state and every micro-state under any action sequence, any fuel, any truncation setting "
          "(C03_conservation_*), with reflection between the Prop invariant WFS and the extracted boolean wfs_b; an AGV holds exactly "
-         "one job in TRANSIT and none otherwise (C03_agv_load_*, unconditional, SMP/Agv.v) and its phase agrees with its claim, route and "
+         "one job in TRANSIT and none otherwise (C03_agv_load_*, unconditional, SMP/Agv.v); a job is claimed by at most one AGV in every "
+         "state and micro-state of EVERY run, every instance (C03_claims_reachable / _micro_states, SMP/Claims.v: claims are only set by "
+         "dispatches, which come from offers of unclaimed jobs or the teleport filter); an AGV's phase agrees with its claim, route and "
          "place - idle and broken-down AGVs are empty and stand at a place, a broken-down AGV has no claim, the WORKING phase is never "
          "entered (C03_agv_phase_*, unconditional); a busy machine holds exactly one job, an "
          "idle one none (C03_machine_holds_one_partial, corollary of the C01 invariant with its monitored side condition; "
